@@ -2279,12 +2279,15 @@ class VariationalCompression(IterativeSweeps):
                 'VariationalCompression with min_sweeps=max_sweeps: '
                 'we recommend to set tol_theta_diff=None to avoid overhead'
             )
+        self._max_trunc_err = 0.0
         return TruncationError()
 
     def run_iteration(self):
         self.renormalize = []
         self._theta_diff = []
         max_trunc_err = self.sweep()
+        # maximum over all sweeps: usually only the first sweep truncates
+        self._max_trunc_err = max_trunc_err = max(self._max_trunc_err, max_trunc_err)
         return TruncationError(max_trunc_err, 1.0 - 2.0 * max_trunc_err)
 
     def is_converged(self):
